@@ -124,6 +124,23 @@ def gen_cases(tier: str, seed: int):
         d2['timeline'] += [[2.6, 'stop_wait', 'op1'], [3.0, 'start', 'op2']]
         d2['timeline'].sort(key=lambda x: x[0])
         cases.append({'name': nm + '-restart', 'desc': d2})
+    # limits and final outcomes of SUB-handlers survive a change of cause: a resume handler whose children are still retrying after a restart, and
+    # an edit (update supersedes resuming, the resume handler is mixed in) or a deletion arriving while the parent waits for a child's retry
+    for kind_p in ('resume', 'update'):
+        for t_edit in (5.0, 6.2, 8.0):
+            for what in ('edit', 'edit-revert', 'delete'):
+                hs = [{'kind': 'create', 'id': 'c0'}, {'kind': 'update', 'id': 'u0'},
+                      {'kind': kind_p, 'id': 'p0', 'opts': ({'deleted': True} if kind_p == 'resume' else {}),
+                       'subs': [{'id': 's1', 'script': [['perm'], ['ok']]}, {'id': 's2', 'script': [['temp', 1.5]] * 8, 'opts': {'retries': 3}},
+                                {'id': 's3', 'script': [['arb'], ['arb'], ['ok'], ['ok']], 'opts': {'backoff': 1.0}}]},
+                      {'kind': 'delete', 'id': 'd0', 'script': [['temp', 1]]}]
+                tl = [[0, 'start', 'op1'], [1, 'create', 'a', {'spec': {'x': 0}}], [3, 'stop_wait', 'op1'], [4, 'start', 'op2']]
+                if kind_p == 'update':
+                    tl.append([4.5, 'edit', 'a', {'spec': {'x': 5}}])
+                tl.append([t_edit, 'delete', 'a'] if what == 'delete' else [t_edit, 'edit', 'a', {'spec': {'y': 1}}])
+                if what == 'edit-revert':
+                    tl.append([round(t_edit + 1.0, 3), 'edit', 'a', {'spec': {'y': None}}])
+                cases.append({'name': f'subs-superseded-{kind_p}-{t_edit}-{what}', 'desc': {'handlers': hs, 'settings': S, 'quiet': 20.0, 'horizon': 300.0, 'timeline': tl}})
     # a delay beyond the framework's 10-minute keep-alive cap of one sleep: the retry still comes no sooner than asked (and does come)
     cases.append({'name': 'long-delay', 'desc': {'handlers': [{'kind': 'create', 'id': 'c0', 'script': [['temp', 700], ['arb'], ['ok']], 'opts': {'backoff': 650.0}}], 'settings': S,
                                                   'quiet': 700.0, 'horizon': 4000.0, 'timeline': [[0, 'start', 'op1'], [1, 'create', 'a', {'spec': {'x': 0}}]]}})
@@ -250,7 +267,10 @@ def run_case(case: dict[str, Any]) -> dict[str, Any]:
                         judge(cur, hid, f'{hid} on {uid}', True, True)
                         cur = []
                     mi += 1
-                if last_reason not in (None, a['call'].get('reason')) and cur:
+                # another cause supersedes the open cycle: the handlers of the old cause start afresh next time -- except the resume handlers (and their
+                # children), which are mixed into whatever cause comes at first sight and are RE-PURPOSED with their record (attempts, start, final outcome) kept
+                top = ix.specs.get(hid.split('/')[0], {})
+                if last_reason not in (None, a['call'].get('reason')) and cur and top.get('kind') != 'resume':
                     judge(cur, hid, f'{hid} on {uid}', True, True)
                     cur = []
                 last_reason = a['call'].get('reason')
